@@ -556,6 +556,70 @@ Theorem fifo E n c :
   prefix (recvs_of c (blocks_of n)) (inbox_at c (chain n)) /\ NoDup (recvs_of c (blocks_of n)).
 Proof. intros W Hc. split; [apply (wn_fifo _ _ W); exact Hc | apply (wn_nodup _ _ W)]. Qed.
 
+(* ================================================================ a contract receive is accepted iff it is for the head of the line *)
+(* The verdict of the verifier on a contract receive for send h (acknowledging a momentum of the chain), on ANY reachable
+   node and on top of ANY kept unconfirmed prefix: accepted exactly when h is the entry of the contract's inbox (as of the
+   acknowledged momentum) at position "number of receives the contract has made" - the head of its line.  Nothing else
+   about h matters: a send the contract has already received, the second in line, a send addressed to somebody else, an
+   unknown hash are all refused, and the head is never refused. *)
+Lemma sends_nodup_firstn E n i : WFN E n ->
+  NoDup (map (fun s : hash * addr * addr => fst (fst s)) (conf_sends (firstn i (chain n)))).
+Proof.
+  intros W. pose proof (wn_sends _ _ W) as ND.
+  rewrite <- (firstn_skipn i (chain n)) in ND. rewrite conf_sends_app, map_app in ND.
+  exact (NoDup_app_l _ _ ND).
+Qed.
+
+Theorem contract_receive_iff_head E n b h :
+  WFN E n -> b_kind b = BRecv h -> is_emb (b_addr b) = true ->
+  1 <= b_ma b <= Z.of_nat (length (chain n)) ->
+  (check_blk E n b = 0 <->
+   nth_error (inbox_at (b_addr b) (firstn (Z.to_nat (b_ma b)) (chain n)))
+             (length (recvs_of (b_addr b) (blocks_of n))) = Some h).
+Proof.
+  intros W Hk Hemb Hma. unfold check_blk.
+  assert (M1 : (b_ma b <? 1) = false) by (apply Z.ltb_ge; lia).
+  assert (M2 : (Z.of_nat (length (chain n)) <? b_ma b) = false) by (apply Z.ltb_ge; lia).
+  rewrite M1, M2. cbn [orb]. rewrite Hk. unfold recv_check. rewrite Hemb.
+  set (view := firstn (Z.to_nat (b_ma b)) (chain n)).
+  set (k := length (recvs_of (b_addr b) (blocks_of n))).
+  split.
+  - destruct (find_csend h (conf_sends view)) as [[f t]|]; [|unfold E_FROM_MISSING; discriminate].
+    destruct (enforced E n && negb (t =? b_addr b)); [unfold E_MISMATCH; discriminate|].
+    destruct (nth_error (inbox_at (b_addr b) view) k) as [h'|]; [|unfold E_SEQ_NOTHING; discriminate].
+    destruct (h' =? h) eqn:Eh; [|unfold E_SEQ_NOT_NEXT; discriminate].
+    apply Z.eqb_eq in Eh. subst h'. reflexivity.
+  - intros Hn. pose proof (nth_error_In _ _ Hn) as Hin. unfold inbox_at in Hin.
+    destruct (to_hashes_find (b_addr b) h (conf_sends view) (sends_nodup_firstn E n _ W) Hin) as [f Hf].
+    rewrite Hf. rewrite Z.eqb_refl. cbn [negb]. rewrite andb_false_r.
+    rewrite Hn. rewrite Z.eqb_refl. reflexivity.
+Qed.
+
+(* ... and then h is the first send of the contract's WHOLE inbox that it has not received *)
+Theorem contract_receive_takes_head E n b h :
+  WFN E n -> b_kind b = BRecv h -> is_emb (b_addr b) = true ->
+  check_blk E n b = 0 ->
+  nth_error (inbox_at (b_addr b) (chain n)) (length (recvs_of (b_addr b) (blocks_of n))) = Some h /\
+  ~ In h (recvs_of (b_addr b) (blocks_of n)).
+Proof.
+  intros W Hk Hemb Hc.
+  assert (Hma : 1 <= b_ma b <= Z.of_nat (length (chain n))).
+  { unfold check_blk in Hc.
+    destruct ((b_ma b <? 1) || (Z.of_nat (length (chain n)) <? b_ma b)) eqn:M; [unfold E_MA_MISSING in Hc; discriminate|].
+    apply orb_false_iff in M. destruct M as [A B]. apply Z.ltb_ge in A. apply Z.ltb_ge in B. lia. }
+  apply (contract_receive_iff_head E n b h W Hk Hemb Hma) in Hc.
+  assert (Hfull : nth_error (inbox_at (b_addr b) (chain n)) (length (recvs_of (b_addr b) (blocks_of n))) = Some h).
+  { apply (prefix_nth (inbox_at (b_addr b) (firstn (Z.to_nat (b_ma b)) (chain n)))); [|exact Hc].
+    exists (inbox_at (b_addr b) (skipn (Z.to_nat (b_ma b)) (chain n))).
+    rewrite <- inbox_at_app, firstn_skipn. reflexivity. }
+  split; [exact Hfull|].
+  intros Hin. destruct (wn_fifo _ _ W (b_addr b) Hemb) as [r Hr].
+  pose proof (inbox_nodup E (b_addr b) n W) as ND. rewrite Hr in ND, Hfull.
+  rewrite nth_error_app2 in Hfull by lia. rewrite Nat.sub_diag in Hfull.
+  destruct r as [|x r]; [discriminate|]. cbn [nth_error] in Hfull. injection Hfull as ->.
+  apply NoDup_remove_2 in ND. apply ND. apply in_or_app. left. exact Hin.
+Qed.
+
 (* ================================================================ before the enforcement height *)
 Definition pre_enf_events : list event :=
   [ EBlock 0 true (mkBlk 1000 100 (BSend 101) 1 []); EMomentum [1000];
